@@ -12,6 +12,8 @@ use crate::evidence::{Report, Tier};
 use crate::gen::{self, Comp};
 use crate::httpd::{self, Server};
 use crate::proc::{self, p, parse_strace, Exit, Run, StraceCall};
+use crate::refimpl::chunker::Cfg;
+use crate::refimpl::codec;
 use crate::scn::{self, CompressSpec};
 use crate::util::{par_map, Rng};
 use serde_json::{json, Value};
@@ -319,6 +321,90 @@ fn compress_case(rep: &Report, idx: usize, seed: u64) -> Option<String> {
     res.err()
 }
 
+/// Directory listing as raw bytes (names that are not valid UTF-8 must not be folded).
+fn listing_raw(dir: &Path) -> BTreeSet<Vec<u8>> {
+    use std::os::unix::ffi::OsStrExt;
+    std::fs::read_dir(dir).map(|rd| rd.filter_map(|e| e.ok()).map(|e| e.file_name().as_bytes().to_vec()).collect()).unwrap_or_default()
+}
+
+/// Output (clone) or archive (compress) paths whose bytes are not valid UTF-8 — Latin-1
+/// names, stray continuation bytes — in the file name or in a directory component. The
+/// file that is created and written must be exactly the one that was named; observed by
+/// raw directory listings and the content of the named path.
+fn odd_name_case(rep: &Report, idx: usize, seed: u64) -> Option<String> {
+    use std::os::unix::ffi::{OsStrExt, OsStringExt};
+    let mut rng = Rng::new(seed).fork(0x16e0 + idx as u64);
+    let dir = scn::case_dir("C16", 160_000 + idx);
+    let res = (|| -> Result<(), String> {
+        let names: [&[u8]; 6] = [b"out-\xe5\xe4\xf6.img", b"\xff\xfe.bin", b"caf\xe9", b"a\x80b.cba", "snowman-\u{2603}.bin".as_bytes(), b"plain.bin"];
+        let name: Vec<u8> = names[idx % names.len()].to_vec();
+        let odd_dir = idx % 2 == 1;
+        let sub: Vec<u8> = if odd_dir { b"d-\xe9\xa0".to_vec() } else { b"d".to_vec() };
+        let odir = dir.join(std::ffi::OsString::from_vec(sub));
+        std::fs::create_dir_all(&odir).map_err(|e| e.to_string())?;
+        let target = odir.join(std::ffi::OsString::from_vec(name.clone()));
+        let src_len = rng.urange(2000, 20_000);
+        let source = gen::gen_source(&mut rng, gen::SrcClass::BlockRepetitive, src_len);
+        let compress = idx % 3 == 2;
+        let before = listing_raw(&odir);
+        let (o, what) = if compress {
+            let spec = CompressSpec::new(Cfg::fixed(rng.urange(200, 900)), Comp::Brotli(2), 64);
+            let (mut run, _) = scn::compress_run(&dir, "a", &source, &spec);
+            run.use_shim = false;
+            run.raw_last_arg = Some(target.clone().into_os_string());
+            (proc::run(&run), "compress")
+        } else {
+            let arch = scn::make_archive(&dir, "a", &source, &CompressSpec::new(Cfg::fixed(rng.urange(200, 900)), Comp::None, 64)).map_err(|_| "build".to_string());
+            let Ok(arch) = arch else {
+                rep.inconclusive("archive build");
+                return Ok(());
+            };
+            let mode = (idx / 3) % 3;
+            let mut cs = scn::CloneSpec { archive: p(&arch.path), output: dir.join("placeholder"), verify_output: rng.chance(1, 2), ..Default::default() };
+            if mode == 1 {
+                std::fs::write(&target, rng.bytes(source.len() / 2)).map_err(|e| e.to_string())?;
+                cs.force = true;
+            }
+            if mode == 2 {
+                std::fs::write(&target, gen::apply_edit(&mut rng, &source, gen::Edit::Swap)).map_err(|e| e.to_string())?;
+                cs.seed_output = true;
+            }
+            let mut run = Run::new(&dir, "clone", scn::clone_args(&cs));
+            run.use_shim = false;
+            run.raw_last_arg = Some(target.clone().into_os_string());
+            (proc::run(&run), ["clone", "clone --force-create", "clone --seed-output"][mode])
+        };
+        rep.eval();
+        if o.exit == Exit::Timeout {
+            rep.inconclusive("watchdog");
+            return Ok(());
+        }
+        if !o.exit.ok() {
+            return Err(format!("{} with a path that is not valid UTF-8 failed: {} :: {}", what, o.exit.describe(), o.tail()));
+        }
+        let after = listing_raw(&odir);
+        let mut want = before.clone();
+        want.insert(name.clone());
+        if after != want {
+            let show = |s: &BTreeSet<Vec<u8>>| s.iter().map(|n| n.escape_ascii().to_string()).collect::<Vec<_>>();
+            return Err(format!("{}: the directory holds {:?}, expected exactly {:?} (the named file and nothing else)", what, show(&after), show(&want)));
+        }
+        let got = std::fs::read(&target).map_err(|e| format!("the named output cannot be read: {}", e))?;
+        if !compress && got != source {
+            return Err(format!("{}: the named output does not hold the source (something else was written?)", what));
+        }
+        if compress && codec::parse_archive(&got).is_err() {
+            return Err("compress: the named archive path does not hold an archive".into());
+        }
+        let _ = target.as_os_str().as_bytes();
+        rep.count("odd_names.runs_judged", 1);
+        rep.nontrivial(format!("oddname:{}:{}:{}", what, name.escape_ascii(), odd_dir));
+        Ok(())
+    })();
+    scn::cleanup(&dir, res.is_err());
+    res.err()
+}
+
 /// Compress under an injected fault at a file operation on its temp file or archive
 /// (k-th write, the re-open of the temp file, the final unlink). The statement is about
 /// SUCCESSFUL runs: whatever the fault, exit status 0 must mean "exactly the archive is
@@ -561,6 +647,18 @@ pub fn run(tier: Tier, seed: u64) -> i32 {
             );
         }
     }
+    let no = tier.pick(36, 600);
+    let res = par_map(no, crate::util::ncpu(), |i| (i, odd_name_case(&rep, i, seed)));
+    for (i, r) in res {
+        if let Some(why) = r {
+            let class: String = why.split(':').next().unwrap_or("").chars().take(60).collect();
+            rep.violation(
+                &format!("c16/odd-name/{}", class.trim()),
+                json!({"why": why, "work_dir": format!("/verif/.work/C16/c{}", 160_000 + i)}),
+                json!({"engine": "odd_name", "idx": i, "seed": seed}),
+            );
+        }
+    }
     let nx = tier.pick(60, 1500);
     let res = par_map(nx, crate::util::ncpu(), |i| (i, compress_fault_case(&rep, i, seed)));
     for (i, r) in res {
@@ -580,7 +678,7 @@ pub fn run(tier: Tier, seed: u64) -> i32 {
         rep.broken("strace monitor observed no opens / no temp-file unlink".into());
     }
     rep.finish(
-        "real `bita clone` in every mode (plain, 1-4 seed files, stdin seed, --seed-output on regular file and block device via hook, --force-create on existing, --verify-header, --verify-output; local and HTTP) and real `bita compress` (file and stdin input, all codecs, --force-create, metadata files, output names with no / several extensions, stale temp file / neighbour files present) each run under `strace -f` with resolved paths; compress under injected errno faults (LD_PRELOAD shim) at the final unlink of the temp file, its re-open, a write to it or to the archive: exit 0 must still mean that only the archive is new; verdict per the rule in the header plus directory listings before/after; non-trivial = distinct traced runs judged",
+        "real `bita clone` in every mode (plain, 1-4 seed files, stdin seed, --seed-output on regular file and block device via hook, --force-create on existing, --verify-header, --verify-output; local and HTTP) and real `bita compress` (file and stdin input, all codecs, --force-create, metadata files, output names with no / several extensions, stale temp file / neighbour files present) each run under `strace -f` with resolved paths; compress under injected errno faults (LD_PRELOAD shim) at the final unlink of the temp file, its re-open, a write to it or to the archive: exit 0 must still mean that only the archive is new; clone / compress onto paths that are not valid UTF-8 (raw directory listings: exactly the named file appears and holds the result); verdict per the rule in the header plus directory listings before/after; non-trivial = distinct traced runs judged",
         &[
             "character devices, /proc, /sys, sockets, pipes and read-only opens of system files are not files written by the command and are ignored by rule",
             "strace sees raw syscalls of all threads (-f); a process that bypassed libc would still be seen",
@@ -596,6 +694,8 @@ pub fn replay(v: &Value) -> i32 {
     rep.replay_mode = true;
     let res = if r["engine"] == "clone" {
         clone_case(&rep, 900_000, &Scenario::from_json(&r["scenario"]), false)
+    } else if r["engine"] == "odd_name" {
+        odd_name_case(&rep, r["idx"].as_u64().unwrap_or(0) as usize, r["seed"].as_u64().unwrap_or(1))
     } else if r["engine"] == "compress_fault" {
         compress_fault_case(&rep, r["idx"].as_u64().unwrap_or(0) as usize, r["seed"].as_u64().unwrap_or(1))
     } else if r["engine"] == "failing_clone" {
